@@ -163,7 +163,13 @@ def pack4_8_little(array: np.ndarray, packed: np.ndarray) -> None:
         packed[ii] = (array[pos + 1] << 4) | array[pos + 0]
 
 
-@njit(cache=True, fastmath=True, locals={"temp": types.f8})
+# All fast-math flags except "arcp": the block mean must be a true division. With "arcp"
+# LLVM multiplies by a rounded reciprocal, and an exact integer mean (e.g. 49 * v / 49) can
+# come out one ulp low and truncate to v - 1 in an integer output.
+_FASTMATH_EXACT_DIV = {"nnan", "ninf", "nsz", "contract", "afn", "reassoc"}
+
+
+@njit(cache=True, fastmath=_FASTMATH_EXACT_DIV, locals={"temp": types.f8})
 def downsample_1d_mean(array: np.ndarray, factor: int) -> np.ndarray:
     """Downsample a 1D array by averaging over bins.
 
@@ -194,7 +200,7 @@ def downsample_1d_mean(array: np.ndarray, factor: int) -> np.ndarray:
     return result
 
 
-@njit(cache=True, fastmath=True, locals={"temp": types.f8})
+@njit(cache=True, fastmath=_FASTMATH_EXACT_DIV, locals={"temp": types.f8})
 def downsample_2d_mean_flat(
     array: np.ndarray,
     factor1: int,
@@ -246,13 +252,13 @@ def downsample_2d_mean_flat(
 downsample_1d_mean_parallel = njit(
     downsample_1d_mean.py_func,
     parallel=True,
-    fastmath=True,
+    fastmath=_FASTMATH_EXACT_DIV,
     locals={"temp": types.f8},
 )
 downsample_2d_mean_parallel = njit(
     downsample_2d_mean_flat.py_func,
     parallel=True,
-    fastmath=True,
+    fastmath=_FASTMATH_EXACT_DIV,
     locals={"temp": types.f8},
 )
 
